@@ -482,9 +482,19 @@ class Interp:
         if getattr(o, "module_level", None):
             ctx.ghost.module_writes.append((o.module_level, "item store into a module-level object"))
         if isinstance(o, PyDict):
-            k = self.concrete_key(k, ctx)
             if getattr(o, "preexisting", False):
-                ctx.ghost.heap_writes.append((o, k))
+                ctx.ghost.heap_writes.append((o, "item store"))
+            if isinstance(k, Seq) and isinstance(k.to_python(), Seq) or isinstance(k, tuple) and not _concrete(k):
+                # symbolic key: overwrite the existing entry it equals (path fork when undetermined), else add it under an
+                # identity-hashed key object
+                for kk in list(o.d.keys()):
+                    e = self.truth(self.equals(kk, k, ctx), ctx)
+                    if ctx.branch(e):
+                        o.d[kk] = v
+                        return
+                o.d[SymKey(k) if isinstance(k, tuple) else k] = v
+                return
+            k = self.concrete_key(k, ctx)
             o.d[k] = v
             return
         if isinstance(o, PyList):
@@ -669,11 +679,20 @@ class Interp:
     def ev_Name(self, e, env, fr, ctx):
         return self.lookup(e.id, env, fr, ctx)
 
+    def _elts(self, elts, env, fr, ctx):
+        out = []
+        for x in elts:
+            if isinstance(x, ast.Starred):
+                out += self.iterate(self.ev(x.value, env, fr, ctx), ctx)
+            else:
+                out.append(self.ev(x, env, fr, ctx))
+        return out
+
     def ev_Tuple(self, e, env, fr, ctx):
-        return tuple(self.ev(x, env, fr, ctx) for x in e.elts)
+        return tuple(self._elts(e.elts, env, fr, ctx))
 
     def ev_List(self, e, env, fr, ctx):
-        return PyList([self.ev(x, env, fr, ctx) for x in e.elts])
+        return PyList(self._elts(e.elts, env, fr, ctx))
 
     def ev_Set(self, e, env, fr, ctx):
         return PySet([self.concrete_key(self.ev(x, env, fr, ctx), ctx) for x in e.elts])
@@ -1071,6 +1090,10 @@ class Interp:
         raise Unsupported(f"`is` on {type(a).__name__}, {type(b).__name__}")
 
     def equals(self, a, b, ctx):
+        if isinstance(a, SymKey):
+            a = a.v
+        if isinstance(b, SymKey):
+            b = b.v
         if _concrete(a) and _concrete(b):
             return a == b
         if isinstance(a, SymEnum) or isinstance(b, SymEnum):
@@ -1646,6 +1669,12 @@ class Interp:
     def format_value(self, v, spec, ctx):
         from .seqops import format_value
         return format_value(self, v, spec, ctx)
+
+
+class SymKey:
+    """identity-hashed wrapper for a tuple key that contains symbolic values"""
+    def __init__(self, v):
+        self.v = v
 
 
 class MethodRef:
